@@ -249,6 +249,16 @@ def file_context_exit_returns_nothing():
     return not any(isinstance(n, ast.Return) and n.value is not None for n in ast.walk(fn))
 
 
+def nursery_instance_per_call():
+    """`PathIONursery.__call__` builds a NEW backend instance on every call (one per session) and shares only `state`"""
+    cls = next((n for n in _module_tree().body if isinstance(n, ast.ClassDef) and n.name == "PathIONursery"), None)
+    fn = next((n for n in (cls.body if cls else []) if isinstance(n, ast.FunctionDef) and n.name == "__call__"), None)
+    if fn is None:
+        return False
+    want = ["instance = self.factory(*args, state=self.state, **kwargs)", "if self.state is None:\n    self.state = instance.state", "return instance"]
+    return [ast.unparse(st) for st in fn.body] == want
+
+
 def _nats(s):
     return "[" + ", ".join(str(ord(c)) for c in s) + "]"
 
@@ -301,6 +311,9 @@ def gen_pathio():
         "/-- `MemoryPathIO._open` returns, on every path, a fresh `MemoryFile`, whose `seek`/`read`/`write` work from the",
         "    file's own position (exact shapes checked by the translator; any other shape gives `false`) -/",
         "def memoryFileOwnPosition : Bool := %s" % ("true" if memory_file_own_position() else "false"),
+        "",
+        "/-- `PathIONursery.__call__` makes a new backend instance per call (per session); only `state` is shared -/",
+        "def nurseryInstancePerCall : Bool := %s" % ("true" if nursery_instance_per_call() else "false"),
         "",
         "/-- `universal_exception`: the classes its wrapper re-raises unchanged -/",
         "def universalExceptionPassThrough : List String := [%s]" % ", ".join('"%s"' % n for n in universal_exception_facts()[0]),
